@@ -612,13 +612,17 @@ class GMMMachine(BaseEstimator):
         if int(version_major) >= 1:
             if hdf5.attrs["writer_class"] != str(cls):
                 logger.warning(f"{hdf5.attrs['writer_class']} is not {cls}.")
-            if hdf5["trainer"] == "map" and ubm is None:
+            # h5py returns stored strings as bytes
+            trainer = hdf5["trainer"][()]
+            if isinstance(trainer, bytes):
+                trainer = trainer.decode()
+            if trainer == "map" and ubm is None:
                 raise ValueError(
                     "The UBM is needed when loading a MAP machine."
                 )
             self = cls(
                 n_gaussians=hdf5["n_gaussians"][()],
-                trainer=hdf5["trainer"][()],
+                trainer=trainer,
                 ubm=ubm,
                 convergence_threshold=1e-5,
                 max_fitting_steps=hdf5["max_fitting_steps"][()],
@@ -658,7 +662,9 @@ class GMMMachine(BaseEstimator):
 
     def load(self, hdf5):
         """Overwrites the current state with those in an `HDF5File` object."""
-        new_self = self.from_hdf5(hdf5)
+        # A MAP machine keeps its prior when it is reloaded in place
+        ubm = self.ubm if self.trainer == "map" else None
+        new_self = self.from_hdf5(hdf5, ubm=ubm)
         self.__dict__.update(new_self.__dict__)
 
     def save(self, hdf5):
